@@ -13,16 +13,16 @@ namespace CaddyModel.C17
 
 /-- FULL STATEMENT (false on the unchanged tree):
     `∀ x, preservesTokens x` — "the formatted text tokenizes to the same tokens with the same
-    line grouping as the original".  Counter-example: the blank after an escaped brace is
-    dropped (`\\{ 200` ↦ `\\{200`: two tokens become one). -/
+    line grouping as the original".  Counter-example: a brace glued to a word is split off
+    (`a{⏎b` ↦ `a {⏎⇥b`). -/
 theorem fmt_preserves_tokens_full_fails : ∃ x : List Rune, preservesTokens x = false :=
-  ⟨runes "\\{ 200", by decide⟩
+  ⟨runes "a{\nb\n", by decide⟩
 
 /-- FULL STATEMENT (false on the unchanged tree):
     `∀ x, idempotentAt x` — "formatting is idempotent".
-    Counter-example: a lone backslash after `a {⏎`. -/
+    Counter-example: `{}{`. -/
 theorem fmt_idempotent_full_fails : ∃ x : List Rune, idempotentAt x = false :=
-  ⟨runes "a {\n\\", by decide⟩
+  ⟨runes "{}{", by decide⟩
 
 set_option maxRecDepth 1000000 in
 /-- every exported token-stream witness (one per known class) fails in the model -/
@@ -48,7 +48,9 @@ def repairedTokenWitnesses : List String := [
   "a#b \"x\n  y\"\n"  /- hash-in-word -/,
   "`a#b` \"x\n  y\"\n"  /- special-in-backquote -/,
   "a \\\n\"b  c\"\n"  /- special-right-after-line-continuation -/,
-  "`{ inner }`\n"  /- ws-or-brace-in-backquote -/
+  "`{ inner }`\n"  /- ws-or-brace-in-backquote -/,
+  "\"a\"\"b  c\"\n"  /- glued-after-quote (second round) -/,
+  "{\n\\\na\n}\n"  /- line-continuation-without-token-before (second round) -/
 ]
 
 /-- witnesses of the idempotence classes retired by the repairs -/
@@ -62,7 +64,10 @@ def repairedIdemWitnesses : List String := [
   "`a#b` \"a\n\tb {\n}\"\n<<END\n  \"q\"\n  END"  /- special-in-backquote -/,
   "EOF\\\n\"{x}# \n}}  \""  /- special-right-after-line-continuation -/,
   "} \\\n\t\"}\""  /- token-after-close-brace-on-same-line -/,
-  "`\n{}`"  /- ws-or-brace-in-backquote -/
+  "`\n{}`"  /- ws-or-brace-in-backquote -/,
+  "\"\"\"\u00a0\n {{\\\nEOF\""  /- glued-after-quote (second round) -/,
+  "\\\n\t\"}\""  /- line-continuation-without-token-before (second round) -/,
+  "b { \\\nb"  /- token-after-open-brace-on-same-line (second round) -/
 ]
 
 set_option maxRecDepth 1000000 in
